@@ -711,6 +711,38 @@ pub fn run_c17(ctx: &Ctx, rep: &mut Report) {
                 3 => "[<>;,\"\\\\= \\n\\ta-cé€😁]{0,40}",
                 1 => "[<>;,\"\\\\= \\n\\ta-cé€😁]{0,200}",
                 1 => "\\PC{0,60}",
+                // every kind of blank (ASCII and multi-byte white space, controls) next to
+                // the structural characters
+                2 => "[<>;,\"\\\\= \\t\\r\\n\\x0B\\x0C\u{85}\u{a0}\u{2003}\u{2028}\u{3000}a]{0,24}",
+                // link-shaped: target, then attributes with blanks around '=' and values
+                3 => (
+                    "[a-c/\\t\\r\\n é\u{a0}]{0,6}",
+                    proptest::collection::vec(
+                        (
+                            "[a-c \u{a0}]{0,3}",
+                            "[ \\t\\r\\n\\x0B\u{85}\u{a0}\u{2003}\u{3000}]{0,2}",
+                            prop_oneof!["[a-c\"\\\\ é\\r\\n]{0,6}", "\"[a-c\"\\\\ ,;é\\r\\n]{0,6}\"?"],
+                            "[ \\t\u{a0}\u{3000}]{0,2}",
+                        ),
+                        0..4,
+                    ),
+                    proptest::option::of("[,;<> a]{0,4}"),
+                )
+                    .prop_map(|(target, attrs, tail)| {
+                        let mut s = format!("<{target}>");
+                        for (k, ws1, v, ws2) in attrs {
+                            s.push(';');
+                            s.push_str(&k);
+                            s.push('=');
+                            s.push_str(&ws1);
+                            s.push_str(&v);
+                            s.push_str(&ws2);
+                        }
+                        if let Some(t) = tail {
+                            s.push_str(&t);
+                        }
+                        s
+                    }),
                 3 => (doc(3, 3), any::<prop::sample::Index>()).prop_map(|(d, i)| {
                     let mut out = String::new();
                     let _ = write_doc(&d, &mut out);
